@@ -5,6 +5,8 @@ TECH = "symbolic execution of go/ssa (real code) to SMT-LIB2; z3 decides every a
 CHECKS = {
  "C01": ("every closure returned by the real Comp.BinaryExpr1 / Unary* / Comp.Symbol compile functions, per (operator, operand kind, constness shape, closure depth, storage class), is executed symbolically from go/ssa and proved equal to the native Go operator for all operand values at full width (IEEE floats, wrap-around ints), including static result kind and panic equivalence (division by zero, negative shift count); power-of-two strength reductions are checked for every exponent. The step from per-closure equivalence to whole expressions is compositional and assumed.",
          "trusted: go/ssa, z3 4.8.12 (+z3 5.1.0/cvc5 fallback), gosym encoder, reflect typed-cell model; operands already of the same type (toSameFuncType executed on same-typed operands); typed constants finite and not -0; frame invariant FileEnv = Outer^(Depth-1); complex division uninterpreted; strings <= 3 bytes", "DESIGN.md §5 C01"),
+ "C02": ("every statement closure returned by the real Comp.setVar / Comp.setPlace (and the var*/place* families they dispatch to: =, +=, -=, *=, /=, %=, &=, |=, ^=, &^=; power-of-two strength reductions) is executed symbolically per (operator, kind, storage class Ints/Vals resp. pointer/map place, constant or expression right-hand side, closure depth 0..5 with the file-frame shortcut) on a chain of symbolic frames and proved to store old OP y with Go wrap-around / IEEE semantics for all values, to leave every other slot, frame, cell and map entry unchanged, to advance IP by one and return the next statement, to evaluate place, key and right-hand side exactly once in Go's order, to panic exactly when Go panics (integer division by zero, nil map) and to be rejected at compile time exactly for integer division by constant zero.",
+         "trusted: go/ssa, z3 4.8.12 (+z3 5.1.0/cvc5 fallback), gosym encoder, reflect typed-cell and map model; narrowing rewrites proved by `gosym lemmas` (division narrowing from 8-bit operands only), float32 double rounding for a single + - * / (Figueroa) trusted; bounds: 3 slots per frame, depth <= 5, maps with <= 2 entries; complex division uninterpreted; shifts on places (<<= >>=) are not implemented by gomacro and not claimed; multi-assignment and IncDec not yet covered", "DESIGN.md §5 C02"),
  "C34": ("the real Universe.addBasicTypeMethodsCTI is executed symbolically for each of the 217 (basic kind, contract method) pairs; the installed func value's signature is checked and its result proved equal to the Go operator/builtin for all operand values, including panic equivalence for integer division and string indexing/slicing.",
          "trusted: go/ssa, z3, encoder, reflect typed-cell model; method-table accessors of xtype (NumMethod/Method/GetMethods) replaced by a one-method model; container-type methods (cti_method.go) outside the claim", "DESIGN.md §5 C34"),
  "C37": ("the real binarySearch, prefixSearch, removeCmd, Cmd.Match, Cmds.Add, Cmds.Del and Cmds.Lookup are executed symbolically on command names that are symbolic byte strings (bounded bit-vector strings) and compared with a linear-scan reference: exact name wins, unique prefix resolves, ambiguity lists exactly the candidates in order, no match is io.EOF; Add/Del are checked as one inductive step from an arbitrary sorted duplicate-free bucket (invariant preserved, other commands still resolve) and as short histories through the public API.",
